@@ -9,6 +9,8 @@ import Verif.Model.ReCap
 import Verif.Model.SchemaMatch
 import Verif.Model.FilterCost
 import Verif.Model.RecvCost
+import Verif.Model.DecodeCost
+import Verif.Driver.ReBudget
 
 open Lean
 
@@ -22,6 +24,8 @@ def tagFromJson (j : Json) : Except String Tag := do
 def optStr : Option (List Nat) → Json
   | none => Json.null
   | some l => Json.arr (l.map (fun (n : Nat) => (n : Json))).toArray
+
+def reBudget : Nat := 3000000
 
 def pureOp (op : String) (j : Json) : Except String Json := do
   match op with
@@ -74,6 +78,13 @@ def pureOp (op : String) (j : Json) : Except String Json := do
     match FilterCost.parseFilterTextC depth cps with
     | (.ok _, k) => return Json.mkObj [("ok", Json.bool true), ("calls", k)]
     | (.error _, k) => return Json.mkObj [("ok", Json.bool false), ("calls", k)]
+  | "decfilterc" =>
+    -- the counting BER filter decoder: number of LDAPFilter.unpack calls and whether it succeeds
+    let bs ← getBytes j "hex"
+    let depth := (getNat j "depth").toOption.getD defaultDepth
+    match DecodeCost.decFilterC (regsFromJson j) depth bs with
+    | (.ok (_, rest), k) => return Json.mkObj [("calls", k), ("ok", Json.bool true), ("rest", rest.length)]
+    | (.error e, k) => return Json.mkObj [("calls", k), ("ok", Json.bool false), ("err", errName e)]
   | "recvattempts" =>
     -- the counting parse loop of receive on a buffer: number of unpack_ldap_message calls, messages returned, bytes left
     let bs ← getBytes j "hex"
@@ -88,9 +99,11 @@ def pureOp (op : String) (j : Json) : Except String Json := do
     match Regexes.allPatterns.find? (·.1 == name) with
     | none => return Json.mkObj [("err", "unknown-pattern")]
     | some (_, r) =>
-      match Re.matchLen r cps with
-      | some n => return Json.mkObj [("end", n)]
-      | none => return Json.mkObj [("end", Json.null)]
+      -- the same traversal as `Re.runs`, under a node budget (an exponential pattern must not hang the driver)
+      match workWithin reBudget r cps with
+      | none => return Json.mkObj [("end", "budget")]
+      | some (_, some n) => return Json.mkObj [("end", n)]
+      | some (_, none) => return Json.mkObj [("end", Json.null)]
   | "rematchg" =>
     -- `re.match` with the named groups: `{"end": n, "groups": {name: [code points] | null}}`
     let name ← getStr j "name"
@@ -138,7 +151,11 @@ def pureOp (op : String) (j : Json) : Except String Json := do
     let cps ← (← getArr j "cps").mapM (fun x => x.getNat?)
     match Regexes.allPatterns.find? (·.1 == name) with
     | none => return Json.mkObj [("err", "unknown-pattern")]
-    | some (_, r) => return Json.mkObj [("work", Re.work r cps)]
+    | some (_, r) =>
+      -- exactly `Re.work r cps` when the search tree has at most `reBudget` nodes, null otherwise
+      match workWithin reBudget r cps with
+      | some (w, _) => return Json.mkObj [("work", w)]
+      | none => return Json.mkObj [("work", Json.null), ("exceeds", reBudget)]
   | "repatterns" => return Json.mkObj [("names", Json.arr (Regexes.allPatterns.map (fun p => Json.str p.1)).toArray)]
   | _ => throw s!"unknown op {op}"
 
